@@ -146,8 +146,13 @@ def main(argv=None):
         rp = os.path.join(VERIF, "replays", pid, f"{uname}--{o['name']}.json".replace("/", "_").replace(" ", "_"))
         rep = dict(property=pid, unit=uname, obligation=o, tier=tier, repo_head=_git_head(REPO))
         confirmed = None
+        kind_of = {r["unit"]: r.get("kind") for r in results}
         try:
-            if hasattr(mod, "replay"):
+            if kind_of.get(uname) == "bounded" and o["status"] in ("failed", "failed-weak"):
+                # a bounded native stand-in IS a run of the real code: its failing inputs are the replay
+                rep["replay"] = dict(confirmed=True, failing_input=o.get("note"), note="failing inputs reported by the bounded native run itself")
+                confirmed = True
+            elif hasattr(mod, "replay"):
                 import contextlib, io
                 # native searches that do not depend on the individual obligation are run once per scope (default: per obligation)
                 scope = (uname, mod.replay_scope(uname, o)) if hasattr(mod, "replay_scope") else (uname, o["name"])
